@@ -74,6 +74,8 @@ func classify(err error) *Finding {
 		cat = CatHarness
 	case strings.Contains(msg, "reading the world panicked"):
 		cat = CatObserve
+	case strings.Contains(msg, "IsLocked()=true although no query is open"):
+		cat = CatLock
 	case strings.Contains(msg, "structural invariant broken"):
 		switch {
 		case strings.Contains(msg, ": pool:"):
@@ -106,7 +108,9 @@ type SimConfig struct {
 	Prop     string
 	Owned    map[string]bool // categories this check reports
 	Verify   VerifyOpts
-	Listener string // "" none | "full" recorder of everything
+	Listener string // "" none | "full" recorder of everything | "spec" a restricted recorder (ListenerSpec)
+	// ListenerSpec configures the primary world's recorder when Listener == "spec".
+	ListenerSpec *SubSpec
 	// CheckEvents compares the recorded events of every op with the model's expectation (C11).
 	CheckEvents bool
 	// CheckCache compares every registered filter with its original after every op (C07).
@@ -120,6 +124,9 @@ type SimConfig struct {
 	// CheckRelQueries queries every (relation component, target) pair through a
 	// RelationFilter after every op and compares with the model (C05, C06).
 	CheckRelQueries bool
+	// RelQueriesRegistered additionally keeps those relation filters registered (from the first
+	// time a pair is seen) and queries through the registered filter as well.
+	RelQueriesRegistered bool
 	// ScanRegistered iterates every registered filter after every op and checks the visited
 	// set against the model (C03: "registered or not").
 	ScanRegistered bool
@@ -187,6 +194,8 @@ type Sim struct {
 	// LastQueryOrder is the order in which the last scripted query visited its entities.
 	LastQueryOrder []ecs.Entity
 	pendingEvents  []pendingEvent
+	saved          *savedDump
+	relRegs        map[string]*Compiled
 	// ReplayExtra is stored in the replay file next to the ops.
 	ReplayExtra any
 	// QueryHook, if set, is called with the open query a Q variant returned, before it is iterated.
@@ -211,7 +220,11 @@ func NewSim(t Failer, cfg SimConfig, u *Universe, st *Stats, cs *Case) *Sim {
 	if cfg.NoListenerTwin {
 		s.N = NewWB("world-without-listener", u)
 	}
-	if cfg.Listener != "" {
+	if cfg.Listener == "spec" && cfg.ListenerSpec != nil {
+		l := s.B.newSubListener(*cfg.ListenerSpec, "world listener")
+		s.B.Rec = l.rec
+		s.B.W.SetListener(l.listener())
+	} else if cfg.Listener != "" {
 		s.B.InstallRecorder()
 		if s.L != nil {
 			s.L.InstallRecorder()
@@ -434,6 +447,10 @@ func (s *Sim) dispatch(o *Op) {
 	switch o.K {
 	case OpDumpLoad:
 		s.doDumpLoad(o)
+	case OpDumpSave:
+		s.doDumpSave(o)
+	case OpDumpRestore:
+		s.doDumpRestore(o)
 	case OpResAdd, OpResRemove:
 		s.doResource(o)
 	case OpDeadRead:
@@ -452,6 +469,8 @@ func (s *Sim) dispatch(o *Op) {
 		s.doRegisterNew(o)
 	case OpAddListener:
 		s.doAddListener(o)
+	case OpLockedRegistration:
+		s.doLockedRegistration(o)
 	case OpNew, OpNewWith, OpBuildNew:
 		s.doCreate(o)
 	case OpBuildBatch:
@@ -1701,6 +1720,7 @@ func (s *Sim) doReset(o *Op) {
 		}
 	}
 	s.M.Reset()
+	s.saved = nil // its bookkeeping refers to handles of the history before the reset
 	s.everTgt = map[int]bool{}
 	s.DeadTargets = nil
 	s.label("reset")
@@ -1768,9 +1788,52 @@ func (s *Sim) checkRelQueries() {
 					s.Report(fd)
 					return
 				}
+				if s.Cfg.RelQueriesRegistered && b == s.B {
+					if fd := s.relQueryRegistered(b, f, c, got); fd != nil {
+						s.Report(fd)
+						return
+					}
+				}
 			}
 		}
 	}
+}
+
+// relQueryRegistered keeps RelationFilter(All(r), t) registered from the first time the pair
+// is seen (at most 12 at a time) and compares the registered filter's selection with the plain one's.
+func (s *Sim) relQueryRegistered(b *WB, f *F, c *Compiled, plain []int) *Finding {
+	if s.relRegs == nil {
+		s.relRegs = map[string]*Compiled{}
+	}
+	key := fmt.Sprintf("%d/%v", f.L.Ids[0], c.Tgt)
+	rc, ok := s.relRegs[key]
+	if !ok {
+		if len(s.relRegs) >= 12 {
+			return nil
+		}
+		rc = &Compiled{F: f, Flt: c.Flt, Tgt: c.Tgt}
+		if p := Call(func() {
+			cf := b.W.Cache().Register(rc.Flt)
+			rc.Cached = &cf
+		}); p != nil {
+			return finding(CatRelation, "%s: registering %s panicked: %v", b.Name, f.String(), p)
+		}
+		s.relRegs[key] = rc
+		s.label("relation filter kept registered")
+	}
+	var got []int
+	var fd *Finding
+	if p := Call(func() { got, fd = b.QuerySet(rc.Cached) }); p != nil {
+		return finding(CatRelation, "%s: query through the registered %s panicked: %v", b.Name, f.String(), p)
+	}
+	if fd != nil {
+		fd.Cat = CatRelation
+		return fd
+	}
+	if fmt.Sprint(sortedCopy(got)) != fmt.Sprint(sortedCopy(plain)) {
+		return finding(CatRelation, "%s: relation filter %s, registered earlier, selects %v; the same filter unregistered selects %v", b.Name, f.String(), sortedCopy(got), sortedCopy(plain))
+	}
+	return nil
 }
 
 // checkCache: every registered filter selects what its original selects (C07).
@@ -1877,4 +1940,79 @@ func (s *Sim) checkFreshHandles(o *Op, prev int) {
 			return
 		}
 	}
+}
+
+// savedDump is the state kept by dumpSave.
+type savedDump struct {
+	dumps  []ecs.EntityDump // per world
+	nEnts  int
+	alive  []bool
+	nAlive int
+}
+
+// doDumpSave takes a dump of every world and remembers the model's entity state.
+func (s *Sim) doDumpSave(o *Op) {
+	sd := &savedDump{nEnts: len(s.M.Ents), nAlive: s.M.NAlive}
+	for i := range s.M.Ents {
+		sd.alive = append(sd.alive, s.M.Ents[i].Alive)
+	}
+	for _, b := range s.Worlds() {
+		var d ecs.EntityDump
+		if p := Call(func() { d = b.W.DumpEntities() }); p != nil {
+			s.unexpectedPanic(o, b, p, CatPanicReset)
+			return
+		}
+		sd.dumps = append(sd.dumps, d)
+	}
+	s.saved = sd
+	s.label("dump saved")
+}
+
+// doDumpRestore resets every world and loads the dump taken earlier: the entity state (alive
+// set, generations, free list) is the one of dump time, whatever happened in between;
+// components are gone. Handles issued after the dump are forgotten (the history restarts).
+func (s *Sim) doDumpRestore(o *Op) {
+	sd := s.saved
+	if sd == nil {
+		return
+	}
+	for i, b := range s.Worlds() {
+		if i >= len(sd.dumps) {
+			s.Report(finding(CatHarness, "dumpRestore: world set changed since dumpSave"))
+			return
+		}
+		p := Call(func() {
+			b.W.Reset()
+			b.W.LoadEntities(&sd.dumps[i])
+		})
+		if p != nil {
+			s.unexpectedPanic(o, b, p, CatPanicReset)
+			return
+		}
+		for _, h := range b.H[sd.nEnts:] {
+			delete(b.Ord, h)
+		}
+		b.H = b.H[:sd.nEnts]
+		b.ResPtr = [NumRes]any{}
+	}
+	s.M.Ents = s.M.Ents[:sd.nEnts]
+	s.M.NAlive = 0
+	for i := range s.M.Ents {
+		e := &s.M.Ents[i]
+		e.Alive = sd.alive[i]
+		e.EntState = EntState{Target: TZero}
+		e.Vals = nil
+		if e.Alive {
+			e.Vals = make([][]byte, s.M.U.N())
+			s.M.NAlive++
+		}
+	}
+	s.M.Res = [NumRes]bool{}
+	s.everTgt = map[int]bool{}
+	s.DeadTargets = nil
+	if s.F != nil {
+		// the fresh twin of a reset segment cannot follow a load of older state
+		s.F = nil
+	}
+	s.label("dump restored after further history")
 }
